@@ -110,6 +110,12 @@ impl EventSender<'_> {
         cancel.check_cancel();
         self.extra.store(extra, Ordering::Relaxed);
         yield_with(self);
+        // a cancel that came after the check above made `yield_with` return at
+        // once: no event was pushed and nobody is going to poll it, the bottom
+        // half must not run (on this thread, beside the poller) as if it had been
+        if crate::yield_now::get_co_para().is_some() {
+            crate::cancel::trigger_cancel_panic();
+        }
     }
 }
 
